@@ -113,7 +113,14 @@ class SimpleCache(BaseCache):
         input_data: StrKeyMapping,
         jacobian_data: JacobianData,
     ) -> None:
-        if self.__is_cached(input_data):
+        # The Jacobian data are attached to the entry
+        # only when they were computed at its input data:
+        # with a tolerance,
+        # Jacobian data computed at a close point would otherwise be served
+        # for points within the tolerance of the entry but not of that point.
+        if len(self.__inputs) != 0 and self.compare_dict_of_arrays(
+            input_data, self.__inputs
+        ):
             if not self.__jacobian:
                 self.__jacobian = jacobian_data
             return
